@@ -26,8 +26,18 @@ ASSUMPTIONS = [
 
 @st.composite
 def cases(draw, tier):
+    rich = draw(st.booleans())
     c = draw(gen.kernel_cases(max_leaves=4 if tier == "quick" else 5,
-                              sparse_output_bias=draw(st.booleans()), big_literals=False))
+                              sparse_output_bias=draw(st.booleans()), big_literals=False,
+                              min_target=2 if rich else 0, order_choices=(1, 2, 2, 3, 3) if rich else (0, 1, 1, 2, 2, 2, 3)))
+    if rich and len(c["target"][1]) >= 2:
+        # appended outputs with dense levels between / after compressed ones exercise every growth formula
+        modes, ordering = C.fmt_parts(c["formats"]["o"])
+        n = len(modes)
+        shape = draw(st.sampled_from(["sds", "sd", "ssd", "dsd", "ss", "dss", "sdd"]))
+        m2 = tuple((shape * 2)[:n])
+        if "s" in m2:
+            c["formats"] = dict(c["formats"], o=C.fmt_text(m2, ordering))
     c["capacity"] = draw(st.sampled_from(kprops.CAPACITIES))
     c["revaluations"] = []
     return c
@@ -35,11 +45,22 @@ def cases(draw, tier):
 
 def check(case, ctx=None):
     labels = set(gen.case_features(case))
-    fails, info = kprops.assemble_compute_history(case, case.get("capacity"), [], check_values=False)
-    st_ = info.get("status")
-    if st_ in ("refused", "crash"):
-        w = info["why"] if isinstance(info["why"], str) else info["why"][0]
-        return result([], labels | {f"{st_}:{w}"}, False, kcheck.case_id(case), None)
+    fails, info = [], {}
+    runs = 0
+    # every initial capacity for every case ("however small they started"); the drawn one goes first
+    caps = [case.get("capacity")] + [c for c in kprops.CAPACITIES if c != case.get("capacity")]
+    for cap in caps:
+        f, i = kprops.assemble_compute_history(case, cap, [], check_values=False)
+        st_ = i.get("status")
+        if st_ in ("refused", "crash"):
+            w = i["why"] if isinstance(i["why"], str) else i["why"][0]
+            return result([], labels | {f"{st_}:{w}"}, False, kcheck.case_id(case), None)
+        runs += 2 + i.get("computes", 0)
+        info = {**i, "grow": info.get("grow", 0) + i.get("grow", 0), "loops": max(info.get("loops", 0), i.get("loops", 0))}
+        fails += f
+        if f:
+            break
+    info["computes"] = runs - 2
     # only safety buckets belong to C05; consistency buckets are C04's
     safety = [f for f in fails if ("trap:" in f["bucket"] or "invalid:" in f["bucket"] or "replaced-vals" in f["bucket"])]
     labels.add("kernels_ok")
@@ -67,7 +88,7 @@ SAFETY_NATIVE = ("c-runtime:", "c-input-modified", "c-nonzero-return", "llvm-cra
 
 
 def run(chk):
-    n = 480 if chk.tier == "quick" else 30000
+    n = 560 if chk.tier == "quick" else 30000
     chk.absorb(run_stream(__name__, "main", chk.tier, chk.seed, n), shrink=shrink_case)
     # the same three kernel kinds from the emitted C under ASan+UBSan (clang and gcc) and from the LLVM JIT;
     # only the safety buckets belong to C05 (agreement of results is C06's business)
